@@ -63,6 +63,27 @@ theorem triggered_defset_frozen (hdur : 0 < cfg.slotDur) {y : Sys} (h : Reach bn
     ∀ t ∈ y.hist, ∀ x, x ∈ defsOf y.st t.duty → x ∈ t.defs :=
   reach_finv hdur h
 
+/-- **Never altered.** A resolution attempt — in particular a retry after a transient error, or the
+repeated resolution of the next epoch in the last slot — and the reorg handler never change a stored
+definition: for a pubkey that had a definition `df` under duty `d`, whatever is stored under `d` for
+that pubkey afterwards is still `df` (first wins; the only other outcome is that the whole set of
+`d` was deleted by a trim). `UInv` (one definition per pubkey) holds in every reachable state. -/
+theorem definition_never_altered {s : State} (hu : UInv s) {d : Duty} {pk : Nat} {df df' : Def}
+    (h : (pk, df) ∈ defsOf s d) :
+    (∀ slot, (pk, df') ∈ defsOf (resolveDuties bn cfg s slot) d → df' = df) ∧
+    (∀ ep, (pk, df') ∈ defsOf (reorg cfg s ep) d → df' = df) := by
+  refine ⟨fun slot h' => ?_, fun ep h' => ?_⟩
+  · obtain ⟨hu', hk⟩ := resolveDuties_keeps bn cfg s slot hu
+    rcases hk d pk df h with h0 | h1
+    · rw [h0] at h'; cases h'
+    · exact hu'.uniq h' h1
+  · obtain ⟨hu', hk⟩ := reorg_keeps cfg s ep hu
+    rcases hk d pk df h with h0 | h1
+    · rw [h0] at h'; cases h'
+    · exact hu'.uniq h' h1
+
+theorem reachable_unique_definitions {y : Sys} (h : Reach bn cfg y) : UInv y.st := reach_uinv h
+
 variable (T : Truth)
 
 /-- **Complete after resolve.** Hypotheses: the beacon node's successful answers for an epoch do not
